@@ -15,9 +15,9 @@ Vocabulary (all defined in `Lemmas/HbfStage.lean`, `HbfRun.lean`, `HbfChain.lean
 * `HbfDec.WF d`: `M = taps.len() ≥ 1`, both buffers have the same length `N ≥ 2M`.
   `HbfDec.Adm d x`: `x.len()` even and `≤ block_size().1 = 2(N-(2M-1))`.
   `HbfDec.abs d`: (first `M-1` items of `even`, first `2M-1` items of `odd.x`) — the input history.
-  `decSpec o taps he ho x`: outputs as a function of history and block only; `decNext`: next history
+  `hbfDecSpec o taps he ho x`: outputs as a function of history and block only; `decNext`: next history
   (the last `M-1` / `2M-1` items of history ++ even- and odd-phase items of the block).
-* `HbfInt.WF`, `HbfInt.Adm d x` (`2·x.len() ≤ block_size().1`), `HbfInt.abs`, `intSpec`, `intNext` likewise.
+* `HbfInt.WF`, `HbfInt.Adm d x` (`2·x.len() ≤ block_size().1`), `HbfInt.abs`, `hbfIntSpec`, `intNext` likewise.
 * `d.run o bs`: call `process_block` once per block of `bs`, in order; returns final state and list of outputs.
 * cascades: `c.active` = the stages in use in application order, `c.Adm x` = the block and every intermediate
   block is admissible for the stage that sees it.
@@ -32,11 +32,11 @@ variable {α : Type}
 /-! ## single decimator -/
 
 /-- Refinement, one `HbfDec::process_block` call on a well-formed state and an admissible block: the returned
-    items are `decSpec` of (input history, block), the new history is `decNext` (last `M-1` even-phase and last
+    items are `hbfDecSpec` of (input history, block), the new history is `decNext` (last `M-1` even-phase and last
     `2M-1` odd-phase items of history ++ block), taps, well-formedness and `block_size()` are unchanged.  The stale
     tail of the buffers never matters. -/
 theorem hbfdec_process_refines (o : Ops α) (d : HbfDec α) (wf : d.WF) (x : List α) (adm : d.Adm x) :
-    (d.process o x).2 = decSpec o d.odd.taps d.abs.1 d.abs.2 x ∧
+    (d.process o x).2 = hbfDecSpec o d.odd.taps d.abs.1 d.abs.2 x ∧
     (d.process o x).1.abs = decNext d.odd.taps.length d.abs.1 d.abs.2 x ∧
     (d.process o x).1.odd.taps = d.odd.taps ∧
     (d.process o x).1.WF ∧
@@ -44,12 +44,12 @@ theorem hbfdec_process_refines (o : Ops α) (d : HbfDec α) (wf : d.WF) (x : Lis
   ⟨HbfDec.process_out o d wf x adm, HbfDec.process_abs o d wf x adm, (HbfDec.process_frame o d wf x adm).1,
    HbfDec.process_wf o d wf x adm, HbfDec.process_blockMax o d wf x adm⟩
 
-/-- what `decSpec` says, item by item: output `i` is `half(e[i] + Σ_j (o[i+j] + o[i+2M-1-j])·taps[j])` where `e` /
+/-- what `hbfDecSpec` says, item by item: output `i` is `half(e[i] + Σ_j (o[i+j] + o[i+2M-1-j])·taps[j])` where `e` /
     `o` are the even- and odd-phase items of history ++ block (`firTap` is the literal `SymFir::get` closure applied to
     the window `o[i .. i+2M]`) -/
 theorem hbfdec_spec_item (o : Ops α) (taps he ho x : List α) (hm : 1 ≤ taps.length)
     (h1 : he.length = taps.length - 1) (h2 : ho.length = 2 * taps.length - 1) (i : Nat) (hi : i < x.length / 2) :
-    (decSpec o taps he ho x)[i]'(by rw [decSpec_length o taps he ho x hm h1 h2]; exact hi) =
+    (hbfDecSpec o taps he ho x)[i]'(by rw [decSpec_length o taps he ho x hm h1 h2]; exact hi) =
       o.half (o.add ((he ++ evens x)[i]'(by simp [evens_length]; omega))
         (firTap o taps (((ho ++ odds x).drop i).take (2 * taps.length)))) :=
   decSpec_getElem o taps he ho x hm h1 h2 i hi
@@ -88,12 +88,12 @@ theorem hbfdec_output_length_in_range (o : Ops α) (d : HbfDec α) (wf : d.WF) (
   simp [odds_length]; omega
 
 /-- General block-partition invariance, `HbfDec`: feeding a list of admissible blocks (empty blocks allowed) gives,
-    concatenated, exactly `decSpec` of the concatenated input, and the final history is `decNext` of the
+    concatenated, exactly `hbfDecSpec` of the concatenated input, and the final history is `decNext` of the
     concatenated input; the state stays well-formed with the same `block_size()`, and call `j` returns
     `len(block j)/2` items. -/
 theorem hbfdec_blocks_spec (o : Ops α) (d : HbfDec α) (wf : d.WF) (bs : List (List α))
     (adm : ∀ b ∈ bs, d.Adm b) :
-    (d.run o bs).2.flatten = decSpec o d.odd.taps d.abs.1 d.abs.2 bs.flatten ∧
+    (d.run o bs).2.flatten = hbfDecSpec o d.odd.taps d.abs.1 d.abs.2 bs.flatten ∧
     (d.run o bs).1.abs = decNext d.odd.taps.length d.abs.1 d.abs.2 bs.flatten ∧
     (d.run o bs).1.WF ∧ (d.run o bs).1.odd.taps = d.odd.taps ∧ (d.run o bs).1.blockMax = d.blockMax ∧
     (d.run o bs).2.map List.length = bs.map (fun b => b.length / 2) :=
@@ -121,11 +121,11 @@ theorem hbfdec_block_append (o : Ops α) (d : HbfDec α) (wf : d.WF) (b1 b2 : Li
 
 /-! ## single interpolator -/
 
-/-- Refinement, one `HbfInt::process_block` call (well-formed state, admissible block): outputs are `intSpec` of
+/-- Refinement, one `HbfInt::process_block` call (well-formed state, admissible block): outputs are `hbfIntSpec` of
     (input history, block), new history is the last `2M-1` items of history ++ block; taps, well-formedness and
     `block_size()` are unchanged. -/
 theorem hbfint_process_refines (o : Ops α) (d : HbfInt α) (wf : d.WF) (x : List α) (adm : d.Adm x) :
-    (d.process o x).2 = intSpec o d.fir.taps d.abs x ∧
+    (d.process o x).2 = hbfIntSpec o d.fir.taps d.abs x ∧
     (d.process o x).1.abs = intNext d.fir.taps.length d.abs x ∧
     (d.process o x).1.fir.taps = d.fir.taps ∧
     (d.process o x).1.WF ∧
@@ -133,13 +133,13 @@ theorem hbfint_process_refines (o : Ops α) (d : HbfInt α) (wf : d.WF) (x : Lis
   ⟨HbfInt.process_out o d wf x adm, HbfInt.process_abs o d wf x adm, (HbfInt.process_frame o d wf x adm).1,
    HbfInt.process_wf o d wf x adm, HbfInt.process_blockMax o d wf x adm⟩
 
-/-- what `intSpec` says, item by item (`s` = history ++ block): output `2i` is the symmetric FIR over
+/-- what `hbfIntSpec` says, item by item (`s` = history ++ block): output `2i` is the symmetric FIR over
     `s[i .. i+2M]`, output `2i+1` is `s[M+i]` (centre tap, identity) -/
 theorem hbfint_spec_item (o : Ops α) (taps h x : List α) (hm : 1 ≤ taps.length)
     (h1 : h.length = 2 * taps.length - 1) (i : Nat) (hi : i < x.length) :
-    (intSpec o taps h x)[2 * i]'(by rw [intSpec_length o taps h x hm h1]; omega) =
+    (hbfIntSpec o taps h x)[2 * i]'(by rw [intSpec_length o taps h x hm h1]; omega) =
       firTap o taps (((h ++ x).drop i).take (2 * taps.length)) ∧
-    (intSpec o taps h x)[2 * i + 1]'(by rw [intSpec_length o taps h x hm h1]; omega) =
+    (hbfIntSpec o taps h x)[2 * i + 1]'(by rw [intSpec_length o taps h x hm h1]; omega) =
       (h ++ x)[taps.length + i]'(by simp [h1]; omega) :=
   intSpec_getElem o taps h x hm h1 i hi
 
@@ -174,7 +174,7 @@ theorem hbfint_output_length_in_range (o : Ops α) (d : HbfInt α) (wf : d.WF) (
 /-- General block-partition invariance, `HbfInt` (empty blocks allowed). -/
 theorem hbfint_blocks_spec (o : Ops α) (d : HbfInt α) (wf : d.WF) (bs : List (List α))
     (adm : ∀ b ∈ bs, d.Adm b) :
-    (d.run o bs).2.flatten = intSpec o d.fir.taps d.abs bs.flatten ∧
+    (d.run o bs).2.flatten = hbfIntSpec o d.fir.taps d.abs bs.flatten ∧
     (d.run o bs).1.abs = intNext d.fir.taps.length d.abs bs.flatten ∧
     (d.run o bs).1.WF ∧ (d.run o bs).1.fir.taps = d.fir.taps ∧ (d.run o bs).1.blockMax = d.blockMax ∧
     (d.run o bs).2.map List.length = bs.map (fun b => 2 * b.length) :=
